@@ -472,6 +472,10 @@ func gen03(c *hmain.Ctx) {
 		}(j)
 	}
 	wg.Wait()
+	k8sSeen.Range(func(k, _ any) bool {
+		c.W.Count("k8s meta templates: k8s_pod of delivered events = " + k.(string))
+		return true
+	})
 	noteMu.Lock()
 	for k, n := range notes {
 		for i := 0; i < n; i++ {
